@@ -6,6 +6,7 @@
 // of the seeded scheduler, so calls overlap *inside* each other. Oracles: ownership invariant on
 // every access; results and final memory equal to the sequential execution of the same programs.
 #include <iconv.h>
+#include <uchar.h>
 #include <pthread.h>
 #include <linux/hw_breakpoint.h>
 #include <linux/perf_event.h>
@@ -701,6 +702,10 @@ STATE_LIBC(size_t, mbrlen, (const char *s, size_t n, mbstate_t *ps), (s, n, ps),
 STATE_LIBC(size_t, wcrtomb, (char *s, wchar_t wc, mbstate_t *ps), (s, wc, ps), ps, sizeof *ps)
 STATE_LIBC(size_t, mbsrtowcs, (wchar_t *d, const char **s, size_t n, mbstate_t *ps), (d, s, n, ps), ps, sizeof *ps)
 STATE_LIBC(size_t, wcsrtombs, (char *d, const wchar_t **s, size_t n, mbstate_t *ps), (d, s, n, ps), ps, sizeof *ps)
+STATE_LIBC(size_t, mbrtoc32, (char32_t *pw, const char *s, size_t n, mbstate_t *ps), (pw, s, n, ps), ps, sizeof *ps)
+STATE_LIBC(size_t, mbrtoc16, (char16_t *pw, const char *s, size_t n, mbstate_t *ps), (pw, s, n, ps), ps, sizeof *ps)
+STATE_LIBC(size_t, c32rtomb, (char *s, char32_t c, mbstate_t *ps), (s, c, ps), ps, sizeof *ps)
+STATE_LIBC(size_t, c16rtomb, (char *s, char16_t c, mbstate_t *ps), (s, c, ps), ps, sizeof *ps)
 STATE_LIBC(struct tm *, localtime_r, (const time_t *t, struct tm *r), (t, r), r, sizeof *r)
 STATE_LIBC(struct tm *, gmtime_r, (const time_t *t, struct tm *r), (t, r), r, sizeof *r)
 // ... and those whose state is an opaque handle (a conversion descriptor): libc documents a data race when two threads use one
